@@ -52,6 +52,10 @@ def run(ctx):
         check_deepcopy(ctx, res, "Hypergraph.copy")
     with res.guard("check_deepcopyctx, res, DirectedHypergraph.copy"):
         check_deepcopy(ctx, res, "DirectedHypergraph.copy")
+    with res.guard("B-LARGEST (shared with C08): subhypergraph_largest_component extracts a maximum-size component"):
+        from .c08 import check_largest_component
+
+        check_largest_component(ctx, res)
     with res.guard("F.check_forwardingctx, res, Hypergraph.subhypergraph_largest_component"):
         F.check_forwarding(ctx, res, ["Hypergraph.subhypergraph_largest_component", "cc.largest_component"])
     res.assumptions += [
